@@ -5,6 +5,7 @@ package harness
 
 import (
 	"context"
+	"fmt"
 	"encoding/json"
 	"errors"
 	"io"
@@ -268,6 +269,23 @@ func TestF15NullParamsEmitted(t *testing.T) {
 		}
 	case <-time.After(200 * time.Millisecond):
 		t.Errorf("nothing sent")
+	}
+}
+
+func TestF16PlaceholderNameArray(t *testing.T) {
+	// known finding (not repaired): with a placeholder name the array form is refused altogether
+	fi, err := handler.Positional(func(ctx context.Context, a, b, c int) (string, error) { return fmt.Sprint(a, b, c), nil }, "first", "-", "third")
+	if err != nil {
+		t.Skip("Positional now rejects placeholder names")
+	}
+	req, _ := jrpc2.ParseRequests([]byte(`{"jsonrpc":"2.0","id":1,"method":"m","params":[1,2,3]}`))
+	v, herr := fi.Wrap()(context.Background(), req[0].ToRequest())
+	if herr != nil {
+		t.Logf("KNOWN FINDING F16 reproduced: array of exactly 3 elements refused: %v", herr)
+		return
+	}
+	if v != "1 2 3" {
+		t.Errorf("got %v", v)
 	}
 }
 
